@@ -1,6 +1,7 @@
 package checks
 
 import (
+	"math/big"
 	"encoding/json"
 	"fmt"
 	"time"
@@ -44,11 +45,11 @@ func (sc *scnCheck) run(w *fw.W) {
 			fams = append(fams, sc.More(t)...)
 		}
 	}
+	if sc.Special != nil {
+		sc.Special(w) // small dedicated families outside the grammar: first, so that a deadline never cuts them
+	}
 	for fi, f := range fams {
 		sc.runFamily(w, fi, f)
-	}
-	if sc.Special != nil {
-		sc.Special(w)
 	}
 }
 
@@ -103,6 +104,15 @@ func (sc *scnCheck) replay(raw json.RawMessage) []fw.Violation {
 	var sp struct {
 		Special string     `json:"special"`
 		Fork    world.Fork `json:"fork"`
+		Entry   string     `json:"entry"`
+		Value   string     `json:"value"`
+	}
+	if json.Unmarshal(raw, &sp) == nil && sp.Special == "wide_value" {
+		v, _ := new(big.Int).SetString(sp.Value, 10)
+		if sig, detail := wideValueRun(sp.Fork, sp.Entry, v); sig != "" {
+			return []fw.Violation{{Sig: "wide_value:" + sig, Detail: detail, Case: raw}}
+		}
+		return nil
 	}
 	if json.Unmarshal(raw, &sp) == nil && sp.Special == "depth_limit" {
 		if sig, detail := depthLimitRun(sp.Fork); sig != "" {
@@ -223,7 +233,7 @@ func init() {
 			f.Modes = [][]bool{{true}, {true, true}} // what the first invocation recorded must survive the frames of the second
 			return []scnFamily{f}
 		},
-		Special: func(w *fw.W) { depthLimitSpecial(w, "C08") }}
+		Special: func(w *fw.W) { depthLimitSpecial(w, "C08"); wideValueSpecial(w, "C08") }}
 	register(&Check{ID: "C08", Level: "model_checking",
 		Technique: "bounded exhaustive enumeration of scenario call trees x memory-reuse patterns after each call x failure kinds x join points on/off, executed on the real EVM; every recorded call-tree node compared with the attempt the scenario denotes (caller, target, value, input) and with gas/outcome taken from the debug tracer's enter/exit events",
 		Rule:      "scenario trees as in C04 x memory reuse {none, return area over the argument area, MSTORE over the arguments after the call} x join points on with Aspects bound everywhere / off x answers with <= k deviations. Oracle: one node per CALL/CREATE/CREATE2 attempt in program order (refused ones included, instruction faults excluded) under the frame that issued it; From/To/Value/input exactly as at the call; Gas == gas of the frame's enter event; RemainingGas == supplied - used of the exit event (all of it back for refusals, nothing for a collision); Err/Ret as handed back. non-trivial = distinct executions with nested attempts",
